@@ -144,6 +144,11 @@ func mergeVal(old, v *Node, h Handling, path []string, o *MergeOpts, st *MergeSt
 		// which kind- and count-observations are not made
 		return &Node{K: KSub, Src: v.Src}
 	}
+	if old.K == KNil && v.K == KSub && v.Empty() {
+		// an empty list or dictionary in B replaces nothing: over a nil this is
+		// nil-or-empty, without a kind of its own
+		return &Node{K: KSub, Src: v.Src}
+	}
 	if old.K != KSub {
 		// A is not a container: B's value (also when B is nil)
 		if v.K == KSub {
